@@ -417,7 +417,7 @@ def o7(ctx, rep):
         n += 1
         ok = b is not None and body.dominates(sw, b) and b not in reach_ne and b in body.reachable([eq_edge])
         rep.check(ok, "O7", fn, "redo|%s" % short(c), "%s at %s is not confined to the branch on which the WAL's sequence number equals the meta page's: a stale WAL could be re-applied" % (short(c), site), site=site, detail="%s at %s only on the `==` edge of the gate at %s" % (short(c), site, ln))
-    rep.floor("O7 redo sites", len(redo_sites), 5)
+    rep.floor("O7 redo sites", len(redo_sites), 3)
     # the not-equal edge discards: reaches truncate_wal and returns without redo
     trunc = [b for b, tt in body.calls() if tt.get("callee") == "nomt::bitbox::writeout::truncate_wal" and b in reach_ne and not body.dominates(eq_edge, b)]
     rep.check(bool(trunc), "O7", fn, "stale-discard", "the stale-WAL branch does not truncate the WAL", site=ln, detail="`!=` edge -> truncate_wal -> return")
@@ -538,7 +538,7 @@ def o11(ctx, rep):
         n += 1
         ok, why = covered_by_sync(ctx, body, "ret", c, dirs)
         rep.check(ok, "O11", "store::create", "create(%s)=>sync(dir)" % c.event.cls, "the %s file created at %s is not followed by a directory fsync before create returns Ok: %s" % (c.event.cls, c.event.site, why), site=c.event.site, detail=why)
-    rep.floor("O11 created files", len({c.event.cls for c in creates}), 5)
+    rep.floor("O11 created files", len({c.event.cls for c in creates}), 3)
     # every written file class synced before Ok
     nw, ns = durable_before(ctx, rep, "O11", body, "ret", ("meta", "ln", "bbn", "ht", "wal"), "Ok-return")
     return n + nw
@@ -708,7 +708,7 @@ def w2(ctx, rep):
     come from SyncAllocator::allocate or std plumbing over its results"""
     n = 0
     writers = sorted({e.body.id.split("::{closure")[0] for e in ctx.events if e.asyncio and e.cls in LNBBN})
-    rep.floor("W2 ln/bbn page writers", len(writers), 4)
+    rep.floor("W2 ln/bbn page writers", len(writers), 2)
     for fn in writers:
         bodies = [ctx.facts.bodies[fn]] + ctx.facts.closures_of(fn)
         is_fl = fn == "nomt::beatree::writeout::submit_freelist_write"
